@@ -10,7 +10,7 @@ import json
 import os
 import vlib
 
-PROPS = ['Rangers.Props.C03']
+PROPS = ['Rangers.Props.C03', 'Rangers.Props.C03Facts']
 DRIVERS = ['C03']
 META = dict(
     level='proof',
